@@ -100,7 +100,7 @@ add("C12", "model_checking",
     "DESIGN.md 3/C12")
 
 add("C17", "model_checking",
-    "exploration of the full tree of key sequences (22-key alphabet, depth 4/5, no merging of states) on the real Tui event dispatch; command pairs, triples and history recall; sessions started with a program and every initial setting; file names wider than the interface; sessions of 320 / 1 200 submitted lines; every key with every modifier combination and the unused key codes, 300 times each; twelve scripted sessions of the real binary under a pseudo terminal (incl. terminal resizes and the quit command) (the real main loop; smoke test, not exhaustive); exhaustive enumeration of terminal sizes and of a command-line family; every key compared with REF-EDIT / REF-CMD and a twin Machine driven by library calls; panic monitor on every transition and render",
+    "exploration of the full tree of key sequences (22-key alphabet, depth 4/5, no merging of states) on the real Tui event dispatch; command pairs, triples and history recall; sessions started with a program and every initial setting; file names wider than the interface; sessions of 320 / 1 200 submitted lines; every key with every modifier combination and the unused key codes, 300 times each; sixteen scripted sessions of the real binary under a pseudo terminal (incl. terminal resizes, the quit command, mouse reports, pasted bursts) (the real main loop; smoke test, not exhaustive); exhaustive enumeration of terminal sizes and of a command-line family; every key compared with REF-EDIT / REF-CMD and a twin Machine driven by library calls; panic monitor on every transition and render",
     "No key sequence / size makes handle_event or Interface::render panic; cursor and history index stay in range; editing keys behave as REF-EDIT; a submitted line is rejected with a notification or has exactly the effect of the documented command on the machine (PartialEq against the twin), values above 255 and trailing garbage rejected; control keys act as the library calls of the same name.",
     "Trusted: REF-EDIT / REF-CMD; completion results are adopted (only invariants checked); float spellings other than plain decimals are unspecified; crossterm I/O, raw mode and the real-time pacing of Tui::run are outside the check.",
     "DESIGN.md 3/C17")
